@@ -1,4 +1,7 @@
+#[cfg(not(kani))]
 use hashbrown::{HashSet};
+#[cfg(kani)]
+use crate::verif_map::HashSet;
 use std::collections::BTreeMap;
 
 use crate::adt::{AdtMetadata, FieldPosition};
